@@ -1,0 +1,24 @@
+//go:build verif
+
+package util
+
+// Contracts for govc (contract-based deductive verification, see /verif/DESIGN.md).
+// This file is compiled only with -tags verif and contains no executable code.
+
+//@ define validRat(r) 0 <= r.Num && r.Num < 18446744073709551616 && 0 <= r.Denom && r.Denom < 18446744073709551616
+
+// Rat.String: the numerator alone over 1, otherwise numerator/denominator in canonical decimals
+//@ func Rat.String returns (s)
+//@   pure
+//@   requires validRat(r)
+//@   ensures s == ite(r.Denom == 1, spec.dec(r.Num), spec.dec(r.Num) + "/" + spec.dec(r.Denom))
+
+//@ func lemmaC10Rat returns (x, err)
+//@   inlines util.Rat.String
+//@   requires validRat(r)
+//@   ensures err == nil && x == r
+
+//@ func lemmaC10RatYAML returns (x, err)
+//@   inlines util.Rat.String
+//@   requires validRat(r)
+//@   ensures err == nil && x == r
